@@ -2,7 +2,7 @@
    with the crossing marked (accepted) and the same design with the marker bypassed (rejected);
    the hypotheses of the theorems in Properties_C12.v are satisfiable by these designs. *)
 From Coq Require Import List NArith Bool Arith Lia Permutation.
-From Gatery Require Import CdcDefs CdcCheck CdcSound CdcWorklist CdcSpecExec.
+From Gatery Require Import CdcDefs CdcClocks CdcCheck CdcSound CdcWorklist CdcSpecExec.
 Import ListNotations.
 
 (* a sufficient, checkable condition for [acyclic]: drivers precede their users *)
@@ -37,9 +37,9 @@ Qed.
 (* clocks: 0 = clkA (root), 1 = clkB (root, same frequency), 2 = derived from clkA, same name /
    frequency / phase -> shares clkA's pin source *)
 Definition ex_clocks : list clock :=
-  [ mkClock None true 0 100 1 true;
-    mkClock None true 1 100 1 true;
-    mkClock (Some 0) true 0 100 1 true ].
+  [ mkClock None true true 0 100 1 true;
+    mkClock None true true 1 100 1 true;
+    mkClock (Some 0) true true 0 100 1 true ].
 
 (* pin(clkA) -> reg(clk2) -> marker(clkA -> clkB) -> reg(clkB) -> pin(clkB) *)
 Definition ex_marked : netlist :=
@@ -121,3 +121,61 @@ Example ex_same_source :
   check_valid (pin_source ex_marked) (mkNode KReg 9 [] 1 [Some 0]) [SClock 2; SConst; SClock 0] = true
   /\ check_valid (pin_source ex_marked) (mkNode KReg 9 [] 1 [Some 0]) [SClock 1; SConst; SClock 0] = false.
 Proof. vm_compute. auto. Qed.
+
+(* ------------------------------------------------------------------ *)
+(* a derived clock whose net is driven by logic in ONE view only (the idiom of
+   ExternalModule::addClockOut: `Bit d; d.exportOverride(x); clk.overrideClkWith(d)`).  It keeps the
+   parent's name, frequency and phase, and still is a domain of its own. *)
+
+Definition drv_clocks (selfsim selfexp : bool) : list clock :=
+  [ mkClock None true true 0 100 1 true;
+    mkClock (Some 0) selfsim selfexp 0 100 1 true ].
+
+(* pin(clkA) ; export-override(-, pin) -> signal2clk(clk1) ; reg(clk1) reads the pin ; pin(clk1) *)
+Definition drv_unmarked (selfsim selfexp : bool) : netlist :=
+  mkNetlist
+    [ mkNode KPin 0 [None] 1 [Some 0];
+      mkNode KOther 1 [None; Some (0, 0)]%N 1 [];
+      mkNode KSig2Clk 2 [Some (1, 0)]%N 0 [Some 1];
+      mkNode KReg 3 [Some (0, 0); None; None]%N 1 [Some 1];
+      mkNode KPin 4 [Some (3, 0)]%N 1 [Some 1] ]
+    (drv_clocks selfsim selfexp).
+
+Definition drv_marked (selfsim selfexp : bool) : netlist :=
+  mkNetlist
+    [ mkNode KPin 0 [None] 1 [Some 0];
+      mkNode KOther 1 [None; Some (0, 0)]%N 1 [];
+      mkNode KSig2Clk 2 [Some (1, 0)]%N 0 [Some 1];
+      mkNode KCdc 3 [Some (0, 0)]%N 1 [Some 0; Some 1];
+      mkNode KReg 4 [Some (3, 0); None; None]%N 1 [Some 1];
+      mkNode KPin 5 [Some (4, 0)]%N 1 [Some 1] ]
+    (drv_clocks selfsim selfexp).
+
+Example drv_clocks_ok : clocks_ok (drv_clocks true false) = true /\ wf (drv_unmarked true false) = true.
+Proof. vm_compute. auto. Qed.
+
+(* undriven: same domain as the parent; driven in the export view only, the simulation view only, or
+   both: its own domain *)
+Example drv_pin_sources :
+  pin_source (drv_unmarked true true) 1 = 0
+  /\ pin_source (drv_unmarked true false) 1 = 1
+  /\ pin_source (drv_unmarked false true) 1 = 1
+  /\ pin_source (drv_unmarked false false) 1 = 1.
+Proof. vm_compute. auto. Qed.
+
+Example drv_verdicts :
+  flagged (drv_unmarked true true) (infer_real (drv_unmarked true true)) = []
+  /\ flagged (drv_unmarked true false) (infer_real (drv_unmarked true false)) = [3%N]
+  /\ flagged (drv_unmarked false true) (infer_real (drv_unmarked false true)) = [3%N]
+  /\ flagged (drv_unmarked false false) (infer_real (drv_unmarked false false)) = [3%N]
+  /\ flagged (drv_marked true false) (infer_real (drv_marked true false)) = []
+  /\ flagged (drv_marked false true) (infer_real (drv_marked false true)) = [].
+Proof. vm_compute. repeat split; reflexivity. Qed.
+
+Example drv_export_only_crossing : has_crossing (drv_unmarked true false) /\ ~ has_crossing (drv_marked true false).
+Proof.
+  split.
+  - apply (spec_verdict_exact (drv_unmarked true false)); vm_compute; reflexivity.
+  - intro H. apply (spec_verdict_exact (drv_marked true false)) in H; [|vm_compute; reflexivity].
+    vm_compute in H. discriminate.
+Qed.
